@@ -30,37 +30,84 @@ theorem unchanged_trans (fill : α → α) (hfill : ∀ v, fill (fill v) = fill 
   · exact Or.inr (by rw [e2, e1])
   · exact Or.inr (by rw [e2, e1, hfill])
 
+/-- a literal row is unchanged under any filling policy -/
+theorem unchanged_of_literal (g : α → α) (p q : Particle α) (h : Literal p q) : Unchanged g p q :=
+  fun f h1 h2 => Or.inl (h f h1 h2)
+
+theorem literal_iff_unchanged_id (p q : Particle α) : Literal p q ↔ Unchanged (fun v => v) p q :=
+  ⟨fun h f h1 h2 => Or.inl (h f h1 h2), fun h f h1 h2 => (h f h1 h2).elim id id⟩
+
+/-- a policy that fills under condition `c` is contained in one that fills under a weaker condition -/
+theorem unchanged_if_mono (fill : α → α) (c d : Bool) (hcd : c = true → d = true) (p q : Particle α)
+    (h : Unchanged (if c then fill else (fun v => v)) p q) : Unchanged (if d then fill else (fun v => v)) p q := by
+  cases c <;> cases d
+  · exact h
+  · exact unchanged_of_literal _ p q ((literal_iff_unchanged_id p q).2 h)
+  · exact absurd (hcd rfl) (by decide)
+  · exact h
+
+theorem unchanged_op_to_hist (fill : α → α) (op : Op α) (ops : List (Op α)) (p q : Particle α)
+    (h : Unchanged (opFill fill op) p q) : Unchanged (histFill fill (op :: ops)) p q := by
+  unfold opFill at h; unfold histFill
+  exact unchanged_if_mono fill _ _ (by intro e; simp [List.any_cons, e]) p q h
+
+theorem unchanged_hist_cons (fill : α → α) (op : Op α) (ops : List (Op α)) (p q : Particle α)
+    (h : Unchanged (histFill fill ops) p q) : Unchanged (histFill fill (op :: ops)) p q := by
+  unfold histFill at h ⊢
+  exact unchanged_if_mono fill _ _ (by intro e; simp [List.any_cons, e]) p q h
+
+theorem histFill_idem (fill : α → α) (hfill : ∀ v, fill (fill v) = fill v) (ops : List (Op α)) :
+    ∀ v, histFill fill ops (histFill fill ops v) = histFill fill ops v := by
+  intro v; unfold histFill; split
+  · exact hfill v
+  · rfl
+
+/-- a history without re-loading operations has the identity as its filling policy: `Unchanged` is `Literal` -/
+theorem histFill_of_no_fill (fill : α → α) (ops : List (Op α)) (h : ops.any Op.mayFill = false) :
+    histFill fill ops = (fun v => v) := by
+  unfold histFill; rw [h]; rfl
+
 end plain
 
 section ordered
 variable {α : Type} [CommRing α] [LinearOrder α] [IsStrictOrderedRing α]
 
 theorem loaded_rows (fill : α → α) (x : Bool × Motl α) :
-    ∀ p ∈ loaded fill x, ∃ p0 ∈ x.2, Unchanged fill p0 p := by
+    ∀ p ∈ loaded fill x, ∃ p0 ∈ x.2, Unchanged (if x.1 then fill else (fun v => v)) p0 p := by
   intro p hp
   unfold loaded at hp
   split at hp
-  · obtain ⟨p0, hp0, rfl⟩ := List.mem_map.1 hp
-    exact ⟨p0, hp0, fun f _ _ => Or.inr (get_fillRow fill p0 f)⟩
-  · exact ⟨p, hp, unchanged_refl fill p⟩
+  · rename_i hx
+    obtain ⟨p0, hp0, rfl⟩ := List.mem_map.1 hp
+    exact ⟨p0, hp0, fun f _ _ => Or.inr (by rw [hx]; exact get_fillRow fill p0 f)⟩
+  · exact ⟨p, hp, unchanged_refl _ p⟩
 
+/-- the rows of the loaded inputs of a merge are rows of the lists handed over; a missing value is
+filled only if SOME input is a bare DataFrame -/
 theorem mergeInputs_rows (fill : α → α) (b a : List (Bool × Motl α)) (s : Bool) (l : Motl α) :
     ∀ m ∈ mergeInputs fill b a s l, ∀ p ∈ m,
-      ∃ p0 ∈ l ++ ((b.map (·.2)).flatten ++ (a.map (·.2)).flatten), Unchanged fill p0 p := by
+      ∃ p0 ∈ l ++ ((b.map (·.2)).flatten ++ (a.map (·.2)).flatten),
+        Unchanged (if (s || (b.any (·.1) || a.any (·.1))) then fill else (fun v => v)) p0 p := by
   intro m hm p hp
   unfold mergeInputs at hm
   simp only [List.mem_append, List.mem_map, List.mem_singleton] at hm
   rcases hm with (⟨x, hx, rfl⟩ | rfl) | ⟨x, hx, rfl⟩
   · obtain ⟨p0, hp0, hu⟩ := loaded_rows fill x p hp
-    refine ⟨p0, ?_, hu⟩
-    simp only [List.mem_append, List.mem_flatten, List.mem_map]
-    exact Or.inr (Or.inl ⟨x.2, ⟨x, hx, rfl⟩, hp0⟩)
+    refine ⟨p0, ?_, unchanged_if_mono fill _ _ ?_ p0 p hu⟩
+    · simp only [List.mem_append, List.mem_flatten, List.mem_map]
+      exact Or.inr (Or.inl ⟨x.2, ⟨x, hx, rfl⟩, hp0⟩)
+    · intro e
+      have : b.any (·.1) = true := List.any_eq_true.2 ⟨x, hx, e⟩
+      simp [this]
   · obtain ⟨p0, hp0, hu⟩ := loaded_rows fill (s, l) p hp
-    exact ⟨p0, List.mem_append_left _ hp0, hu⟩
+    exact ⟨p0, List.mem_append_left _ hp0, unchanged_if_mono fill _ _ (by intro e; simp at e; simp [e]) p0 p hu⟩
   · obtain ⟨p0, hp0, hu⟩ := loaded_rows fill x p hp
-    refine ⟨p0, ?_, hu⟩
-    simp only [List.mem_append, List.mem_flatten, List.mem_map]
-    exact Or.inr (Or.inr ⟨x.2, ⟨x, hx, rfl⟩, hp0⟩)
+    refine ⟨p0, ?_, unchanged_if_mono fill _ _ ?_ p0 p hu⟩
+    · simp only [List.mem_append, List.mem_flatten, List.mem_map]
+      exact Or.inr (Or.inr ⟨x.2, ⟨x, hx, rfl⟩, hp0⟩)
+    · intro e
+      have : a.any (·.1) = true := List.any_eq_true.2 ⟨x, hx, e⟩
+      simp [this]
 
 theorem mergeBlocks_flat_rows (cmp : Cmp) (ls : List (Motl α)) :
     ∀ q ∈ (mergeBlocks cmp 0 ls).flatten, ∃ m ∈ ls, ∃ p ∈ m, ∀ f : Field, f ≠ Field.object_id → q.get f = p.get f := by
